@@ -180,7 +180,11 @@ def main():
     ntotal = len(recs)
     want = 12000 if thorough else 1600
     if len(recs) > want:
-        recs = rng.sample(recs, want)
+        # the rare spellings (a displacement alone, plain or starred) are kept in numbers, the rest is sampled
+        rare = [r for r in recs if r['spell'] in ('3', 'star3')]
+        rest = [r for r in recs if r['spell'] not in ('3', 'star3')]
+        rare = rng.sample(rare, min(len(rare), want // 8))
+        recs = rare + rng.sample(rest, min(len(rest), want - len(rare)))
     allpts = adeck.grid_points(rng, 10 ** 6, -11, 11)
     jobs, nd, meta = [], {}, {}
     for i, r in enumerate(recs):
